@@ -225,8 +225,18 @@ def nnWrapX (r : T FRes) : T FRes :=
   | some .null => if r.1.errs.isEmpty then r else ({ r.1 with val := none }, r.2)
   | _ => r
 
+/-- give the travelling (last) error the path `p` if it has none (`keep_error_path`) -/
+def fillLast (p : List PathSeg) : List GErr → List GErr
+  | [] => []
+  | [e] => [if e.path.isEmpty then { e with path := p } else e]
+  | e :: rest => e :: fillLast p rest
+
+/-- the per-item wrapper of `resolve_list`: an error travelling up through a list item gets the
+    item's path if it has none (always, under `listItemPathOverwrite`) -/
 def itemWrapX (D : ExecStatic.Defects) (p : List PathSeg) (r : T FRes) : T FRes :=
-  if D.listItemPathOverwrite && r.1.val.isNone then ({ r.1 with errs := ExecStatic.rewriteLast p r.1.errs }, r.2) else r
+  if r.1.val.isNone then
+    ({ r.1 with errs := if D.listItemPathOverwrite then ExecStatic.rewriteLast p r.1.errs else fillLast p r.1.errs }, r.2)
+  else r
 
 /-- combine the results of the children of a list / selection set -/
 def gather (rs : List (T FRes)) (ok : List GValue → GValue) (bad : Option GValue) : T FRes :=
